@@ -367,6 +367,9 @@ namespace sim
 	void simulation::log_pcap(char const* filename)
 	{
 		std::printf("saving packet capture to: \"%s\"\n", filename);
+		// finish the running capture first: if it writes to the same file, what
+		// it still buffers must not end up in the new one
+		m_pcap.reset();
 		m_pcap = std::unique_ptr<aux::pcap>(new aux::pcap(filename));
 	}
 
